@@ -1,7 +1,12 @@
 """C19 — message ids resolve to the right class, per application, or not at all.
 
 A *history* is a program: a set of applications (ITCH / OUCH / SQF style; application base classes written the generated way,
-a few written plainly) and message class statements with overlapping ids in random order.  Registries are process-global, so
+a few written plainly) and message class statements with overlapping ids in random order.  Every statement is executed the
+way real code defines classes: as a top-level `class` statement in a MODULE namespace (a module object registered in
+`sys.modules`, the statement binds the module attribute), inside a factory function of a module, as a metaclass call
+(`type(Base)(name, bases, ns, **kw)`), or in a bare namespace; class names are repeated — in particular a second class for a
+taken id gets the name of the first, in the same module (attribute still bound to the first, or deleted) or in another
+one.  Registries are process-global, so
 every history is executed in ONE fresh Python process (this file run with `--child`), which
   * executes the class statements one by one, recording `ok` or the exception class,
   * checks after every statement that raised that both registries are what they were before it,
@@ -39,8 +44,7 @@ def base_source(b):
     return f"class {b['var']}({b['proto']}.Message, app_name={b['app']!r}):\n    pass\n"
 
 
-def decl_source(d):
-    """source text of a message class statement.  d = {'cid','name','base' (variable or 'itch.Message'), 'ind','dir','appkw'}"""
+def decl_kw(d):
     kw = []
     if d['ind'] is not None:
         kw.append(f"indicator={d['ind']}")
@@ -48,10 +52,47 @@ def decl_source(d):
         kw.append(f"direction={d['dir']!r}")
     if d['appkw'] is not None:
         kw.append(f"app_name={d['appkw']!r}")
-    return (f"class {d['name']}({', '.join([d['base']] + kw)}):\n"
-            f"    CID = {d['cid']}\n"
-            f"    class BodyRecord(Record):\n"
-            f"        Fields = [Field('f{d['cid']}', Byte)]\n")
+    return kw
+
+
+def decl_source(d):
+    """source text of a message class definition.
+    d = {'cid','name','base' (variable or 'itch.Message'), 'ind','dir','appkw'} + where/how it is written:
+      form  'env'      class statement in a bare namespace (no module: `__module__` is 'builtins')                [default]
+            'module'   top-level class statement of module `mod` (binds the module attribute `name`)
+            'factory'  class statement inside the function `make_<name>` of module `mod`; `bind`: result assigned to `name`
+            'type'     metaclass call `type(Base)(name, (Base,), ns, **kw)` in module `mod`; `bind`: result assigned to `name`
+      unbind  the module attribute `name` is deleted again after the definition"""
+    form = d.get('form', 'env')
+    kw = decl_kw(d)
+    if form in ('env', 'module'):
+        src = (f"class {d['name']}({', '.join([d['base']] + kw)}):\n"
+               f"    CID = {d['cid']}\n"
+               f"    class BodyRecord(Record):\n"
+               f"        Fields = [Field('f{d['cid']}', Byte)]\n")
+    elif form == 'factory':
+        tgt = d['name'] if d.get('bind') else '_unbound'
+        src = (f"def make_{d['name']}():\n"
+               f"    class {d['name']}({', '.join([d['base']] + kw)}):\n"
+               f"        CID = {d['cid']}\n"
+               f"        class BodyRecord(Record):\n"
+               f"            Fields = [Field('f{d['cid']}', Byte)]\n"
+               f"    return {d['name']}\n"
+               f"{tgt} = make_{d['name']}()\n")
+    elif form == 'type':
+        tgt = d['name'] if d.get('bind') else '_unbound'
+        src = (f"_body = type('BodyRecord', (Record,), {{'Fields': [Field('f{d['cid']}', Byte)]}})\n"
+               f"{tgt} = type({d['base']})({d['name']!r}, ({d['base']},), {{'CID': {d['cid']}, 'BodyRecord': _body}}"
+               f"{''.join(', ' + k for k in kw)})\n")
+    else:
+        raise ValueError(form)
+    if d.get('unbind') and form != 'env':
+        src += f"globals().pop({d['name']!r}, None)\n"
+    return src
+
+
+def module_name(i):
+    return f'c19mod{i}'
 
 
 def child_main():
@@ -60,9 +101,19 @@ def child_main():
     common.use_repo()
     from nasdaq_protocols import itch, ouch, sqf
     from nasdaq_protocols.common import logable, Record, Field, Byte, CommonMessage
+    import types
     env = dict(itch=itch, ouch=ouch, sqf=sqf, logable=logable, Record=Record, Field=Field, Byte=Byte)
+    # module objects registered in sys.modules: what `import` leaves behind.  Every module starts with the prelude names
+    # (`from nasdaq_protocols import …`) and, once defined, the application base classes (`from apps import *`)
+    n_mod = 1 + max([d.get('mod', 0) for d in h['decls']] + [0])
+    mods = []
+    for i in range(n_mod):
+        m = types.ModuleType(module_name(i))
+        m.__dict__.update(env)
+        sys.modules[m.__name__] = m
+        mods.append(m)
     id_cls = {'itch': itch.ItchMessageId, 'ouch': ouch.OuchMessageId, 'sqf': sqf.SqfMessageId}
-    out = {'bases': [], 'defs': [], 'unchanged_after_error': [], 'sweeps': {}, 'ind': [], 'names': [], 'classes': {}}
+    out = {'bases': [], 'defs': [], 'unchanged_after_error': [], 'sweeps': {}, 'ind': [], 'names': [], 'classes': {}, 'bound': []}
 
     def snapshot():
         ids = {a: [(repr(k), getattr(v, 'CID', v.__name__)) for k, v in m.items()]
@@ -75,12 +126,15 @@ def child_main():
         try:
             exec(base_source(b), env)
             out['bases'].append('ok')
+            for m in mods:
+                m.__dict__[b['var']] = env[b['var']]
         except Exception as e:  # noqa
             out['bases'].append(common.err_name(e))
     for d in h['decls']:
         before = snapshot()
+        ns = env if d.get('form', 'env') == 'env' else mods[d.get('mod', 0)].__dict__
         try:
-            exec(decl_source(d), env)
+            exec(decl_source(d), ns)
             out['defs'].append('ok')
         except Exception as e:  # noqa
             out['defs'].append(common.err_name(e))
@@ -88,6 +142,13 @@ def child_main():
 
     def cid_of(cls):
         return getattr(cls, 'CID', 'cls:' + getattr(cls, '__name__', '?'))
+
+    # what each module namespace binds the class names to at the end (python's own semantics: ties the harness' idea of
+    # "the attribute is still bound to the first class" to what really happened)
+    for i, m in enumerate(mods):
+        for nm in sorted({d['name'] for d in h['decls']}):
+            if nm in m.__dict__:
+                out['bound'].append([i, nm, cid_of(m.__dict__[nm])])
 
     def lookup(f):
         try:
@@ -172,6 +233,7 @@ def gen_history(rng, tier):
         id_pool += [0, 255]
     decls = []
     n_decl = rng.randint(4, 14 if tier == 'quick' else 24)
+    n_mod = rng.choice([1, 1, 2, 3])
     name_pool = []
     for cid in range(1, n_decl + 1):
         c = rng.random()
@@ -205,11 +267,36 @@ def gen_history(rng, tier):
             appkw = bases[int(base_var[4:])]['app']
             if rng.random() < 0.4:
                 base_var = f'{proto}.Message'       # same namespace, spelled on a statement under the protocol-level class
+        # ---- where and how the statement is written; which name it carries
+        ns_key = (appkw if (appkw is not None and not (base_var.startswith('Base') and bases[int(base_var[4:])]['style'] == 'gen'))
+                  else (bases[int(base_var[4:])]['app'] if base_var.startswith('Base') else PROTO_APP[proto]), proto, ind)
+        prior = [x for x in decls if x['_ns'] == ns_key]                 # earlier statements for the same (application, indicator)
+        form = rng.choices(['module', 'factory', 'type', 'env'], weights=[11, 3, 3, 3])[0]
+        mod = rng.randrange(n_mod)
         name = f'M{cid}'
-        if name_pool and rng.random() < 0.08:
-            name = rng.choice(name_pool)                            # two classes with the same __name__
+        r = rng.random()
+        if prior and r < 0.55:
+            # a second class for a taken id written like a re-definition: the name of the first one - in its module
+            # (same form: a module executed again, a factory called again …) or in another module
+            first = prior[0]
+            name = first['name']
+            if rng.random() < 0.7:
+                mod = first.get('mod', 0)
+                if rng.random() < 0.7:
+                    form = first.get('form', 'env')
+        elif name_pool and r < 0.65:
+            name = rng.choice(name_pool)                                # two classes with the same __name__, anywhere
         name_pool.append(name)
-        decls.append({'cid': cid, 'name': name, 'base': base_var, 'ind': ind, 'dir': dirn, 'appkw': appkw})
+        d = {'cid': cid, 'name': name, 'base': base_var, 'ind': ind, 'dir': dirn, 'appkw': appkw, 'form': form, '_ns': ns_key}
+        if form != 'env':
+            d['mod'] = mod
+            if form in ('factory', 'type'):
+                d['bind'] = rng.random() < 0.7
+            if rng.random() < 0.08:
+                d['unbind'] = True
+        decls.append(d)
+    for d in decls:
+        del d['_ns']
     queries = []
     all_vars = [b['var'] for b in bases] + ['itch.Message', 'ouch.Message', 'sqf.Message']
     vproto = {b['var']: b['proto'] for b in bases}
@@ -254,9 +341,11 @@ def model_request(h):
     ds = []
     for d in h['decls']:
         b = info[d['base']]
+        form = d.get('form', 'env')
         ds.append([d['cid'], names[d['name']], b['proto'], codes[b['app']], b['style'],
                    'none' if d['ind'] is None else d['ind'], dirs(d['dir']),
-                   'none' if d['appkw'] is None else codes[d['appkw']]])
+                   'none' if d['appkw'] is None else codes[d['appkw']],
+                   d.get('mod', 0), FORM_SX[form], 1 if d.get('bind') else 0, 1 if d.get('unbind') else 0])
     targets = ['itch.Message', 'ouch.Message', 'sqf.Message'] + [b['var'] for b in h['bases']]
     qs = []
     for v in targets:
@@ -268,7 +357,19 @@ def model_request(h):
             qs.append(['ind', codes[info[q['var']]['app']], q['proto'], q['ind'], dirs(q['dir'])])
         else:
             qs.append(['name', codes[info[q['var']]['app']], names.get(q['name'], 0)])
+    bound = bound_queries(h)
+    for m, nm in bound:
+        qs.append(['bound', m, names[nm]])
     return f'reg.run {sx(ds)} {sx(qs)}', targets
+
+
+FORM_SX = {'env': 'bare', 'module': 'top', 'factory': 'factory', 'type': 'meta'}
+
+
+def bound_queries(h):
+    """(module, class name) pairs whose final binding is compared (python's namespace semantics, modelled by `stepAt`)"""
+    n_mod = 1 + max([d.get('mod', 0) for d in h['decls']] + [0])
+    return [(m, nm) for m in range(n_mod) for nm in sorted({d['name'] for d in h['decls']})]
 
 
 def canon(x):
@@ -307,6 +408,12 @@ def compare(h, res, ans):
             ni += 1
         if got != answers[qi]:
             return f'query {q}: model {answers[qi]}, implementation {got}'
+        qi += 1
+    impl_bound = {(m, nm): canon(c) for m, nm, c in res.get('bound', [])}
+    for m, nm in bound_queries(h):
+        got = impl_bound.get((m, nm), 'key')
+        if got != answers[qi]:
+            return f'module {module_name(m)} binds {nm} to: model {answers[qi]}, implementation {got}'
         qi += 1
     return None
 
@@ -355,6 +462,39 @@ def oracle(h, res):
     return None
 
 
+def site_classes(h, res):
+    """input distribution: how each statement is written, and - for every statement that meets a class already registered for
+    its (application, id) - how it relates to that class: name, module, form, and whether the module attribute of that name
+    is still bound to the registered class at that moment (bindings replayed from the implementation's own outcomes)"""
+    info = base_info(h)
+    out = []
+    first = {}          # (namespace, proto, ind, dir-if-ouch) -> decl
+    binds = {}          # (mod, name) -> cid
+    for d, r in zip(h['decls'], res['defs']):
+        form = d.get('form', 'env')
+        out.append('form:' + form)
+        b = info[d['base']]
+        ns = d['appkw'] if (d['appkw'] is not None and b['style'] != 'gen') else b['app']
+        key = (ns, b['proto'], d['ind'], d['dir'] if b['proto'] == 'ouch' else None)
+        f = first.get(key)
+        if f is not None and d['ind'] is not None:
+            same_name = f['name'] == d['name']
+            same_mod = f.get('form', 'env') != 'env' and form != 'env' and f.get('mod', 0) == d.get('mod', 0)
+            bound = same_mod and binds.get((d.get('mod', 0), d['name'])) == f['cid']
+            out.append('second-class:' + ('same-name' if same_name else 'other-name') + '/' +
+                       ('same-module' if same_mod else 'other-module') +
+                       ('/same-form:' + form if (same_name and same_mod and f.get('form', 'env') == form) else '') +
+                       ('/attribute-bound-to-first' if (same_name and bound) else ''))
+        if r == 'ok':
+            if f is None and d['ind'] is not None:
+                first[key] = d
+            if form == 'module' or (form in ('factory', 'type') and d.get('bind')):
+                binds[(d['mod'], d['name'])] = d['cid']
+            if d.get('unbind') and form != 'env':
+                binds.pop((d['mod'], d['name']), None)
+    return out
+
+
 def shrink(h, failing):
     h = json.loads(json.dumps(h))
     for key in ('decls', 'queries', 'bases'):
@@ -378,7 +518,9 @@ def shrink(h, failing):
 
 
 def program_text(h):
-    return ''.join(base_source(b) + '\n' for b in h['bases']) + ''.join(decl_source(d) + '\n' for d in h['decls'])
+    where = lambda d: ('# bare namespace (no module)' if d.get('form', 'env') == 'env'
+                       else f"# in module {module_name(d.get('mod', 0))} (registered in sys.modules)")
+    return ''.join(base_source(b) + '\n' for b in h['bases']) + ''.join(where(d) + '\n' + decl_source(d) + '\n' for d in h['decls'])
 
 
 def check_history(ctx, h, res, ans):
@@ -391,6 +533,8 @@ def check_history(ctx, h, res, ans):
     ctx.count('decoded-ok', sum(1 for s in res['sweeps'].values() for x in s if isinstance(x, int)))
     ctx.count('decoded-keyerror', sum(1 for s in res['sweeps'].values() for x in s if x == 'key'))
     ctx.count('history:' + ('in-quantifier' if h.get('pure') else 'mixed (agreement only)'))
+    for k in site_classes(h, res):
+        ctx.count(k)
     if h.get('pure'):
         bad = oracle(h, res)
         if bad and len(ctx.violations) >= 2:
@@ -435,8 +579,11 @@ def run(ctx):
     rng = ctx.rng
     n = 220 if ctx.tier == 'quick' else 6000
     ctx.cov['rule'] = ('one fresh Python process per history: 2-5 application base classes (ITCH/OUCH/SQF, generated style; plain style '
-                       'and explicit app_name only in "mixed" histories) + 4-24 message class statements with ids drawn from a small '
-                       'pool, in random order; then all 256 id bytes through every base class and the 3 protocol-level classes, '
+                       'and explicit app_name only in "mixed" histories) + 4-24 message class definitions with ids drawn from a small '
+                       'pool, in random order, each written as a top-level class statement of one of 1-3 modules registered in '
+                       'sys.modules / inside a factory function / as a metaclass call / in a bare namespace, class names repeated (a second '
+                       'class for a taken id carries the name of the first in 55 %, mostly in its module and form, the module attribute '
+                       'still bound to the first or deleted); then all 256 id bytes through every base class and the 3 protocol-level classes, '
                        'get_msg_cls_by_indicator / by_name / get_msg_classes; distinct = distinct program')
     hs = load_corpus() + [gen_history(rng, ctx.tier) for _ in range(n)]
     run_histories(ctx, hs)
